@@ -48,6 +48,22 @@ CLAIMED["C09"] = dict(
          "histories from default_on configurations; post-state and every published setSwitchVector must satisfy the rule.",
     note="Trusted: initial configurations satisfy the rule; written values are On/Off.",
     ref="DESIGN.md section 6 C09", technique=XH)
+CLAIMED["C02"] = dict(
+    text="Bounded symbolic model checking of the real Buffer (StringIO bookkeeping, find/rfind/slices, loop control) against a ground-truth "
+         "parse oracle: two messages of 4..5 symbolic characters (any code point, XML facts F1-F6 as preconditions), fillers (none, newline, XML "
+         "declaration), every 2-piece (quick) / 3-piece (thorough) partition via a symbolic cut, threshold disabled or symbolic; after every "
+         "append+process the delivered list must be exactly the messages whose last character has arrived.",
+    note="Trusted: expat enters as the oracle 'a prefix is a message iff it equals one of the sent messages' (F1-F6, stated); tags {a,b} stand for the "
+         "real tags; CrossHair's str/StringIO model (one equality bug found and avoided, DESIGN 3.1). Counterexamples are concretised to real "
+         "serialised messages and replayed on the real Buffer with real expat.",
+    ref="DESIGN.md section 6 C02", technique=XH)
+CLAIMED["C11"] = dict(
+    text="Safety: the real Buffer on an arbitrary symbolic text (<=4/5 chars + appended piece), arbitrary threshold or none, and an ARBITRARY "
+         "table of parser verdicts (so the verdict holds for whatever expat does): terminates, raises nothing, delivers only accepted messages, "
+         "never None, retains <= threshold. Liveness with the ground-truth oracle: '<'-free junk around messages neither loses nor delays them; "
+         "a truncated element is skipped once the threshold is exceeded (threshold disabled: recorded finding).",
+    note="Trusted: F4/F5 on the arbitrary oracle; F1-F6 on the ground-truth oracle; watchdog stubs turn non-termination into a verdict.",
+    ref="DESIGN.md section 6 C11", technique=XH)
 NA_DEFAULT = "check not built yet in this round (no verdict claimed); see DESIGN.md section 6 for the plan"
 
 checks, na = [], []
